@@ -92,6 +92,10 @@ var Catalogue = []Item{
 	{"global.var", "var gv%dx uint64 = 12\n\nfunc gv%d() uint64 {\n\treturn gv%dx + 1\n}\n", "return gv%d()", "uint64"},
 	{"global.var-mutated", "var gm%dx uint64 = 1\n\nfunc gm%ds() {\n\tgm%dx = 5\n}\n\nfunc gm%d() uint64 {\n\tgm%ds()\n\treturn gm%dx\n}\n", "return gm%d()", "uint64"},
 	{"interface.method", "type im%di interface {\n\tarea() uint64\n}\n\ntype im%ds struct {\n\tw uint64\n}\n\nfunc (s im%ds) area() uint64 {\n\treturn s.w * s.w\n}\n\nfunc im%dm(x im%di) uint64 {\n\treturn x.area()\n}\n\nfunc im%d() uint64 {\n\treturn im%dm(im%ds{w: 3})\n}\n", "return im%d()", "uint64"},
+	{"interface.var", "type iv%di interface {\n\tarea() uint64\n}\n\ntype iv%ds struct {\n\tw uint64\n}\n\nfunc (s iv%ds) area() uint64 {\n\treturn s.w * s.w\n}\n\nfunc iv%d() uint64 {\n\tvar x iv%di = iv%ds{w: 3}\n\treturn x.area()\n}\n", "return iv%d()", "uint64"},
+	{"interface.extra-params", "type ip%di interface {\n\tarea() uint64\n}\n\ntype ip%ds struct {\n\tw uint64\n}\n\nfunc (s ip%ds) area() uint64 {\n\treturn s.w * s.w\n}\n\nfunc ip%dm(x ip%di, n uint64) uint64 {\n\treturn x.area() + n\n}\n\nfunc ip%d() uint64 {\n\tv := ip%dm(ip%ds{w: 3}, 2)\n\treturn v\n}\n", "return ip%d()", "uint64"},
+	{"interface.second-param", "type iq%di interface {\n\tarea() uint64\n}\n\ntype iq%ds struct {\n\tw uint64\n}\n\nfunc (s iq%ds) area() uint64 {\n\treturn s.w * s.w\n}\n\nfunc iq%dm(n uint64, x iq%di) uint64 {\n\treturn x.area() + n\n}\n\nfunc iq%d() uint64 {\n\tv := iq%dm(2, iq%ds{w: 3})\n\treturn v\n}\n", "return iq%d()", "uint64"},
+	{"interface.pointer-impl", "type ir%di interface {\n\tbump() uint64\n}\n\ntype ir%ds struct {\n\tw uint64\n}\n\nfunc (s *ir%ds) bump() uint64 {\n\ts.w = s.w + 1\n\treturn s.w\n}\n\nfunc ir%dm(x ir%di) uint64 {\n\treturn x.bump() + x.bump()\n}\n\nfunc ir%d() uint64 {\n\tp := &ir%ds{w: 3}\n\tv := ir%dm(p)\n\treturn v + p.w\n}\n", "return ir%d()", "uint64"},
 	{"generic.func", "func gf%d[T any](x T, y T, first bool) T {\n\tif first {\n\t\treturn x\n\t}\n\treturn y\n}\n", "return gf%d[uint64](3, 4, false)", "uint64"},
 	{"init.func", "var in%dv uint64\n\nfunc in%d() uint64 {\n\treturn in%dv\n}\n", "return in%d()", "uint64"},
 	{"blank.assign-call", "func ba%dh(p *uint64) uint64 {\n\t*p = 3\n\treturn 1\n}\n\nfunc ba%d() uint64 {\n\tp := new(uint64)\n\t_ = ba%dh(p)\n\treturn *p\n}\n", "return ba%d()", "uint64"},
